@@ -271,6 +271,12 @@ def selectors_two_graphs_problems():
     from shexer.shaper import Shaper
     ns = {"http://ex.org/": "ex", "http://sh.org/": "sx"}
     problems = []
+    # two entries sharing a label select the union of their nodes
+    out = Shaper(raw_graph=SEL_DOC, shape_map_raw="<http://ex.org/c>@<http://sh.org/U>\n{FOCUS a ex:C}@<http://sh.org/U>\n<http://ex.org/b>@<http://sh.org/V>", namespaces_dict=dict(ns),
+                 instances_report_mode="abs", remove_empty_shapes=False).shex_graph(string_output=True)
+    for w in ("sx:U   # 3 instances.", "sx:V   # 1 instance."):
+        if w not in out:
+            problems.append("two shape-map entries with the same label: expected %r in\n%s" % (w, out))
     sm = "{FOCUS a ex:C}@<http://sh.org/A>\n{FOCUS ex:p _}@<http://sh.org/B>"
     outs = []
     for doc, want in ((SEL_DOC, ("sx:A   # 2 instances.", "sx:B   # 2 instances.")), (SEL_DOC2, ("sx:A   # 1 instance.", "sx:B   # 2 instances.")),
